@@ -103,6 +103,52 @@ Proof.
       rewrite orb_false_r. tauto.
 Qed.
 
+(** the batch editors: same statements as for the plain fold, for every shape of the editor *)
+Lemma batch_update_agree {A} mode ns (f : name -> option A) : forall W l l0 l' e,
+  agree W l l0 -> batch_update mode ns f l = (l', e) ->
+  exists l0', batch_update mode ns f l0 = (l0', e) /\ agree (match e with None => minus W ns | Some _ => W end) l' l0'.
+Proof.
+  intros W l l0 l' e Hag Hs. destruct mode; simpl in *.
+  - eapply seq_update_agree; eauto.
+  - rewrite <- (agree_keys _ _ _ Hag). destruct (forallb (fun n => memN n (keys l)) ns).
+    + eapply seq_update_agree; eauto.
+    + inversion Hs; subst. exists l0. split; [reflexivity | exact Hag].
+  - inversion Hs; subst. exists l0. split; [reflexivity | exact Hag].
+Qed.
+Lemma batch_update_touches {A} mode ns (f : name -> option A) : forall l l' e,
+  batch_update mode ns f l = (l', e) -> agree ns l' l.
+Proof.
+  intros l l' e Hs. destruct mode; simpl in *.
+  - eapply seq_update_touches; eauto.
+  - destruct (forallb (fun n => memN n (keys l)) ns); [eapply seq_update_touches; eauto | inversion Hs; subst; apply agree_refl].
+  - inversion Hs; subst. apply agree_refl.
+Qed.
+
+(** a validated batch edit is all-or-nothing: when every value is defined, an error means nothing was written *)
+Lemma seq_update_ok {A} ns (f : name -> option A) : forall l,
+  (forall n, In n ns -> f n <> None) -> forallb (fun n => memN n (keys l)) ns = true ->
+  snd (seq_update ns f l) = None.
+Proof.
+  induction ns as [|n ns IH]; intros l Hf Hk; simpl in *; [reflexivity|].
+  apply andb_true_iff in Hk. destruct Hk as [Hn Hk].
+  destruct (f n) as [v|] eqn:E; [|exfalso; apply (Hf n); auto].
+  rewrite Hn. apply IH; [intros m Hm; apply Hf; auto | rewrite keys_set_key; exact Hk].
+Qed.
+Lemma batch_validated_all_or_nothing {A} ns (f : name -> option A) l l' e :
+  (forall n, In n ns -> f n <> None) ->
+  batch_update BatchValidated ns f l = (l', Some e) -> l' = l.
+Proof.
+  intros Hf Hs. simpl in Hs. destruct (forallb (fun n => memN n (keys l)) ns) eqn:Hk.
+  - pose proof (seq_update_ok ns f l Hf Hk) as H. rewrite Hs in H. discriminate.
+  - inversion Hs; reflexivity.
+Qed.
+Lemma lookup_keys_some {A} (l : list (name * A)) n : In n (keys l) -> lookup n l <> None.
+Proof.
+  induction l as [|[k v] r IH]; simpl; [contradiction|]. intros [->|H].
+  - rewrite N.eqb_refl. discriminate.
+  - destruct (N.eqb n k); [discriminate | apply IH; exact H].
+Qed.
+
 Section Proofs.
   Context {T : Type} (O : num_ops T) (ff : fit_facts).
   Notation mstate := (mstate (T:=T)).
@@ -134,8 +180,8 @@ Section Proofs.
   Proof. rewrite memN_minus. simpl. apply andb_true_r. Qed.
 
   Lemma apply_phase_agree S u ph Wp Wv st st0 st1 e :
-    agree_st Wp Wv st st0 -> apply_phase S u ph st = (st1, e) ->
-    exists st01, apply_phase S u ph st0 = (st01, e) /\
+    agree_st Wp Wv st st0 -> apply_phase ff S u ph st = (st1, e) ->
+    exists st01, apply_phase ff S u ph st0 = (st01, e) /\
                  match e with
                  | None => agree_st (minus Wp (wp_phase S ph)) (minus Wv (wv_phase S ph)) st1 st01
                  | Some _ => agree_st Wp Wv st1 st01
@@ -143,8 +189,8 @@ Section Proofs.
   Proof.
     intros [Hp Hv] Ha. destruct ph; simpl in *.
     - destruct (s_y0 S) as [y0|].
-      + destruct (seq_update (keys y0) (fun n => lookup n y0) (ms_vars st)) as [v e'] eqn:Hs. inversion Ha; subst.
-        destruct (seq_update_agree _ _ Wv _ _ _ _ Hv Hs) as [v0 [Hs0 Hag]]. rewrite Hs0. eexists. split; [reflexivity|].
+      + destruct (batch_update (ff_batch_vars ff) (keys y0) (fun n => lookup n y0) (ms_vars st)) as [v e'] eqn:Hs. inversion Ha; subst.
+        destruct (batch_update_agree _ _ _ Wv _ _ _ _ Hv Hs) as [v0 [Hs0 Hag]]. rewrite Hs0. eexists. split; [reflexivity|].
         destruct e; split; simpl; auto. eapply agree_weaken; [|exact Hp]. intros k; rewrite minus_nil; auto.
       + inversion Ha; subst. exists st0. split; [reflexivity|]. split; simpl; (eapply agree_weaken; [|eassumption]); intros k; rewrite minus_nil; auto.
     - destruct (seq_update (s_p_names S) (fun n => lookup n u) (ms_pars st)) as [p e'] eqn:Hs. inversion Ha; subst.
@@ -156,12 +202,12 @@ Section Proofs.
   Qed.
 
   Lemma apply_phase_touches S u ph st st1 e :
-    apply_phase S u ph st = (st1, e) -> agree_st (wp_phase S ph) (wv_phase S ph) st1 st.
+    apply_phase ff S u ph st = (st1, e) -> agree_st (wp_phase S ph) (wv_phase S ph) st1 st.
   Proof.
     intros Ha. destruct ph; simpl in *.
     - destruct (s_y0 S) as [y0|].
-      + destruct (seq_update (keys y0) _ (ms_vars st)) as [v e'] eqn:Hs. inversion Ha; subst. split; simpl; [apply agree_refl|].
-        eapply seq_update_touches; eauto.
+      + destruct (batch_update (ff_batch_vars ff) (keys y0) _ (ms_vars st)) as [v e'] eqn:Hs. inversion Ha; subst. split; simpl; [apply agree_refl|].
+        eapply batch_update_touches; eauto.
       + inversion Ha; subst. apply agree_st_refl.
     - destruct (seq_update (s_p_names S) _ (ms_pars st)) as [p e'] eqn:Hs. inversion Ha; subst. split; simpl; [|apply agree_refl].
       eapply seq_update_touches; eauto.
@@ -176,8 +222,8 @@ Section Proofs.
   Proof. unfold memN. apply existsb_app. Qed.
 
   Lemma apply_phases_agree S u phs : forall Wp Wv st st0 st1 e,
-    agree_st Wp Wv st st0 -> apply_phases S u phs st = (st1, e) ->
-    exists st01, apply_phases S u phs st0 = (st01, e) /\
+    agree_st Wp Wv st st0 -> apply_phases ff S u phs st = (st1, e) ->
+    exists st01, apply_phases ff S u phs st0 = (st01, e) /\
                  match e with
                  | None => agree_st (minus Wp (wp_phases S phs)) (minus Wv (wv_phases S phs)) st1 st01
                  | Some _ => agree_st Wp Wv st1 st01
@@ -186,7 +232,7 @@ Section Proofs.
     induction phs as [|ph phs IH]; intros Wp Wv st st0 st1 e Hag Ha; simpl in *.
     - inversion Ha; subst. exists st0. split; [reflexivity|].
       eapply agree_st_weaken; [| |exact Hag]; intros k; rewrite minus_nil; auto.
-    - destruct (apply_phase S u ph st) as [st' [e'|]] eqn:Hph.
+    - destruct (apply_phase ff S u ph st) as [st' [e'|]] eqn:Hph.
       + inversion Ha; subst. destruct (apply_phase_agree _ _ _ _ _ _ _ _ _ Hag Hph) as [st0' [H0 Hag']].
         rewrite H0. exists st0'. split; [reflexivity | exact Hag'].
       + destruct (apply_phase_agree _ _ _ _ _ _ _ _ _ Hag Hph) as [st0' [H0 Hag']]. rewrite H0.
@@ -198,11 +244,11 @@ Section Proofs.
   Qed.
 
   Lemma apply_phases_touches S u phs : forall st st1 e,
-    apply_phases S u phs st = (st1, e) -> agree_st (wp_phases S phs) (wv_phases S phs) st1 st.
+    apply_phases ff S u phs st = (st1, e) -> agree_st (wp_phases S phs) (wv_phases S phs) st1 st.
   Proof.
     induction phs as [|ph phs IH]; intros st st1 e Ha; simpl in *.
     - inversion Ha; subst. apply agree_st_refl.
-    - destruct (apply_phase S u ph st) as [st' [e'|]] eqn:Hph.
+    - destruct (apply_phase ff S u ph st) as [st' [e'|]] eqn:Hph.
       + inversion Ha; subst. apply apply_phase_touches in Hph.
         eapply agree_st_weaken; [| |exact Hph]; intros k Hk; unfold wp_phases, wv_phases in Hk; simpl in Hk;
           rewrite memN_app in Hk; apply orb_false_iff in Hk; tauto.
@@ -228,13 +274,13 @@ Section Proofs.
   Proof. rewrite memN_minus. destruct (memN k W); reflexivity. Qed.
 
   Lemma proto_steps_touches S : forall steps full st t y acc st' out,
-    proto_steps O S steps full st t y acc = (st', out) ->
+    proto_steps O ff S steps full st t y acc = (st', out) ->
     agree (s_proto_names S) (ms_pars st') (ms_pars st) /\ ms_vars st' = ms_vars st.
   Proof.
     induction steps as [|[t_end vals] r IH]; intros full st t y acc st' out H; simpl in H.
     - inversion H; subst. split; [apply agree_refl | reflexivity].
-    - destruct (seq_update (s_proto_names S) (fun n => lookup n (combine (s_proto_names S) vals)) (ms_pars st)) as [p e] eqn:Hs.
-      apply seq_update_touches in Hs.
+    - destruct (batch_update (ff_batch_pars ff) (s_proto_names S) (fun n => lookup n (combine (s_proto_names S) vals)) (ms_pars st)) as [p e] eqn:Hs.
+      apply batch_update_touches in Hs.
       repeat dmh H;
         first [ inversion H; subst; simpl; split; [exact Hs | reflexivity]
               | apply IH in H; destruct H as [H1 H2]; simpl in *; split; [eapply agree_trans; [exact H1 | exact Hs] | exact H2] ].
@@ -242,14 +288,14 @@ Section Proofs.
 
   Lemma proto_steps_agree S steps full st st0 t y acc st' out :
     agree (s_proto_names S) (ms_pars st) (ms_pars st0) -> ms_vars st = ms_vars st0 ->
-    proto_steps O S steps full st t y acc = (st', out) ->
-    exists st0', proto_steps O S steps full st0 t y acc = (st0', out) /\
+    proto_steps O ff S steps full st t y acc = (st', out) ->
+    exists st0', proto_steps O ff S steps full st0 t y acc = (st0', out) /\
                  agree (s_proto_names S) (ms_pars st') (ms_pars st0') /\ ms_vars st' = ms_vars st0'.
   Proof.
     intros Hp Hv H. destruct steps as [|[t_end vals] r]; simpl in *.
     - inversion H; subst. exists st0. repeat split; assumption.
-    - destruct (seq_update (s_proto_names S) (fun n => lookup n (combine (s_proto_names S) vals)) (ms_pars st)) as [p e] eqn:Hs.
-      destruct (seq_update_agree _ _ _ _ _ _ _ Hp Hs) as [p0 [Hs0 Hag]]. rewrite Hs0. rewrite <- Hv.
+    - destruct (batch_update (ff_batch_pars ff) (s_proto_names S) (fun n => lookup n (combine (s_proto_names S) vals)) (ms_pars st)) as [p e] eqn:Hs.
+      destruct (batch_update_agree _ _ _ _ _ _ _ _ Hp Hs) as [p0 [Hs0 Hag]]. rewrite Hs0. rewrite <- Hv.
       destruct e as [e|].
       + inversion H; subst. eexists. split; [reflexivity|]. simpl. split; [exact Hag | reflexivity].
       + assert (p = p0) as <- by (eapply agree_none_eq; [|exact Hag]; apply memN_minus_self).
@@ -264,8 +310,8 @@ Section Proofs.
 
   Lemma simulate_agree k S st st0 st' out :
     agree (proto_w k S) (ms_pars st) (ms_pars st0) -> ms_vars st = ms_vars st0 ->
-    simulate O k S st = (st', out) ->
-    exists st0', simulate O k S st0 = (st0', out) /\
+    simulate O ff k S st = (st', out) ->
+    exists st0', simulate O ff k S st0 = (st0', out) /\
                  agree (proto_w k S) (ms_pars st') (ms_pars st0') /\ ms_vars st' = ms_vars st0'.
   Proof.
     intros Hp Hv H. destruct k; simpl in *.
@@ -280,7 +326,7 @@ Section Proofs.
   Qed.
 
   Lemma simulate_touches k S st st' out :
-    simulate O k S st = (st', out) -> agree (proto_w k S) (ms_pars st') (ms_pars st) /\ ms_vars st' = ms_vars st.
+    simulate O ff k S st = (st', out) -> agree (proto_w k S) (ms_pars st') (ms_pars st) /\ ms_vars st' = ms_vars st.
   Proof.
     intros H. destruct k; simpl in *.
     - pose proof (sim_steady_state S st) as E. rewrite H in E. simpl in E. subst. split; [apply agree_refl | reflexivity].
@@ -316,11 +362,11 @@ Section Proofs.
       exists st0', step st0 u = (st0', l) /\ agree_st Wp Wv st' st0'.
     Proof.
       intros Hag H. unfold step, residual_step in *. fold order in H |- *.
-      destruct (apply_phases S u order st) as [st1 e] eqn:Hph.
+      destruct (apply_phases ff S u order st) as [st1 e] eqn:Hph.
       destruct (apply_phases_agree S u order _ _ _ _ _ _ Hag Hph) as [st01 [H0 Hag1]]. rewrite H0.
       destruct e as [e|].
       - inversion H; subst. exists st01. split; [reflexivity | exact Hag1].
-      - destruct (simulate O k S st1) as [st2 out] eqn:Hsim. inversion H; subst.
+      - destruct (simulate O ff k S st1) as [st2 out] eqn:Hsim. inversion H; subst.
         destruct Hag1 as [Hp1 Hv1].
         assert (Hv1' : ms_vars st1 = ms_vars st01) by (eapply agree_none_eq; [|exact Hv1]; apply memN_minus_self).
         assert (Hp1' : agree (proto_w k S) (ms_pars st1) (ms_pars st01))
@@ -335,11 +381,11 @@ Section Proofs.
     Lemma step_touches st u st' l : step st u = (st', l) -> agree_st Wp Wv st' st.
     Proof.
       intros H. unfold step, residual_step in *. fold order in H.
-      destruct (apply_phases S u order st) as [st1 e] eqn:Hph. apply apply_phases_touches in Hph.
+      destruct (apply_phases ff S u order st) as [st1 e] eqn:Hph. apply apply_phases_touches in Hph.
       assert (Hph' : agree_st Wp Wv st1 st)
         by (eapply agree_st_weaken; [| |exact Hph]; [apply weaken_Wp_phases | auto]).
       destruct e as [e|]; [inversion H; subst; exact Hph'|].
-      destruct (simulate O k S st1) as [st2 out] eqn:Hsim. inversion H; subst.
+      destruct (simulate O ff k S st1) as [st2 out] eqn:Hsim. inversion H; subst.
       apply simulate_touches in Hsim. destruct Hsim as [Hp Hv]. eapply agree_st_trans; [|exact Hph'].
       split; [eapply agree_weaken; [|exact Hp]; apply weaken_Wp_proto | rewrite Hv; apply agree_refl].
     Qed.
@@ -408,13 +454,63 @@ Section Proofs.
     Qed.
   End Step.
 
+  (** *** leaves of a strategy tree: whatever a run answers is one of the tree's answers *)
+  Fixpoint leaves_sat (P : list (name * T) -> T -> Prop) (s : strat (T:=T)) : Prop :=
+    match s with
+    | Done (Some (x, v)) => P x v
+    | Done None => True
+    | Raise _ => True
+    | Ask u kont => forall l, leaves_sat P (kont l)
+    end.
+  Lemma run_leaves_sat P stp : forall (s : strat (T:=T)) st st' x v,
+    leaves_sat P s -> run_strat stp s st = (st', RunDone (Some (x, v))) -> P x v.
+  Proof.
+    induction s as [u kont IH|r|e]; intros st st' x v Hl Hr; simpl in *.
+    - destruct (stp st u) as [st1 l]. destruct l; try discriminate; eapply IH; eauto.
+    - inversion Hr; subst. exact Hl.
+    - discriminate.
+  Qed.
+  Lemma leaves_le_sat le b (s : strat (T:=T)) : leaves_sat (fun _ v => le v b) s -> leaves_le le b s.
+  Proof. induction s as [u kont IH|[[x v]|]|e]; simpl; auto. Qed.
+
+  (** a run writes only the written names (any minimiser, any number of evaluations) *)
+  Lemma run_touches k S : forall (s : strat (T:=T)) st st' r,
+    run_strat (step k S) s st = (st', r) -> agree_st (Wp k S) (Wv k S) st' st.
+  Proof.
+    induction s as [u kont IH|r0|e]; intros st st' r Hr; simpl in *.
+    - destruct (step k S st u) as [st1 l] eqn:Hs. apply step_touches in Hs.
+      destruct l; try (inversion Hr; subst; exact Hs);
+        (eapply agree_st_trans; [eapply IH; exact Hr | exact Hs]).
+    - inversion Hr; subst. apply agree_st_refl.
+    - inversion Hr; subst. apply agree_st_refl.
+  Qed.
+
   (** *** the wrappers *)
+  Lemma fit_ext k S copy caller p0 (mini mini' : list (name * T) -> strat (T:=T)) :
+    mini p0 = mini' p0 -> fit O ff k S copy caller p0 mini = fit O ff k S copy caller p0 mini'.
+  Proof. intros H. unfold fit. rewrite H. reflexivity. Qed.
+
+  (** with nothing in front of the copy guard the wrapper is: run the minimiser on the caller's content *)
+  Lemma fit_unfold k S copy caller p0 (mini : list (name * T) -> strat (T:=T)) :
+    wf_pre_copy (wr_facts ff k) = [] ->
+    fit O ff k S copy caller p0 mini =
+    (let '(st', r) := run_strat (residual_step O ff k (route S caller p0)) (mini p0) caller in
+     (if wf_copy_guard (wr_facts ff k) && match copy with Some b => b | None => wf_copy_default (wr_facts ff k) end
+      then caller else st',
+      match r with
+      | RunDone (Some (x, v)) => FitOk st' x v
+      | RunDone None => FitFailed
+      | RunRaised e => FitRaised e
+      end)).
+  Proof. intros Hpre. unfold fit. rewrite Hpre. reflexivity. Qed.
+
   Lemma fit_reported_loss k S copy caller p0 (mini : list (name * T) -> strat (T:=T)) after m x v :
+    wf_pre_copy (wr_facts ff k) = [] ->
     honest [] (mini p0) ->
     fit O ff k S copy caller p0 mini = (after, FitOk m x v) ->
     snd (residual_step O ff k (route S caller p0) caller x) = RVal v.
   Proof.
-    intros Hh Hf. unfold fit in Hf.
+    intros Hpre Hh Hf. rewrite (fit_unfold _ _ _ _ _ _ Hpre) in Hf.
     destruct (run_strat (residual_step O ff k (route S caller p0)) (mini p0) caller) as [st' r] eqn:Hr.
     destruct r as [[[x' v']|]|e]; inversion Hf; subst.
     eapply (run_honest k (route S caller p0) caller (mini p0) [] caller); eauto.
@@ -423,12 +519,13 @@ Section Proofs.
   Qed.
 
   Lemma fit_not_worse_than_start (le : T -> T -> Prop) k S copy caller p0 kont after m x v :
+    wf_pre_copy (wr_facts ff k) = [] ->
     (forall b, leaves_le le b (kont (RVal b))) ->
     fit O ff k S copy caller p0 (fun p => Ask p kont) = (after, FitOk m x v) ->
     snd (residual_step O ff k (route S caller p0) caller p0) = RInf
     \/ exists b, snd (residual_step O ff k (route S caller p0) caller p0) = RVal b /\ le v b.
   Proof.
-    intros Hl Hf. unfold fit in Hf.
+    intros Hpre Hl Hf. rewrite (fit_unfold _ _ _ _ _ _ Hpre) in Hf.
     destruct (run_strat (residual_step O ff k (route S caller p0)) (Ask p0 kont) caller) as [st' r] eqn:Hr.
     destruct r as [[[x' v']|]|e]; inversion Hf; subst. simpl in Hr.
     destruct (residual_step O ff k (route S caller p0) caller p0) as [st1 l] eqn:Hs. simpl.
@@ -437,19 +534,39 @@ Section Proofs.
   Qed.
 
   Lemma fit_input_untouched k S copy caller p0 mini :
+    wf_pre_copy (wr_facts ff k) = [] ->
     wf_copy_guard (wr_facts ff k) = true -> wf_copy_default (wr_facts ff k) = true ->
     copy = None \/ copy = Some true ->
     fst (fit O ff k S copy caller p0 mini) = caller.
   Proof.
-    intros Hg Hd Hc. unfold fit. rewrite Hg.
+    intros Hpre Hg Hd Hc. rewrite (fit_unfold _ _ _ _ _ _ Hpre). rewrite Hg.
     destruct (run_strat (residual_step O ff k (route S caller p0)) (mini p0) caller) as [st' r].
     destruct Hc as [->| ->]; simpl; [rewrite Hd|]; reflexivity.
   Qed.
 
+  (** WITHOUT copying the caller's model is the minimiser's work model: it differs from what it was at
+      most in the written names (routed parameters / variables, y0's variables, the protocol's columns) *)
+  Lemma fit_touches k S caller p0 mini :
+    wf_pre_copy (wr_facts ff k) = [] ->
+    agree_st (Wp k (route S caller p0)) (Wv k (route S caller p0))
+             (fst (fit O ff k S (Some false) caller p0 mini)) caller.
+  Proof.
+    intros Hpre. rewrite (fit_unfold _ _ _ _ _ _ Hpre). rewrite andb_false_r.
+    destruct (run_strat (residual_step O ff k (route S caller p0)) (mini p0) caller) as [st' r] eqn:Hr.
+    simpl. eapply run_touches. exact Hr.
+  Qed.
+
+  Lemma agree_lookup {A} W (l l0 : list (name * A)) n : agree W l l0 -> memN n W = false -> lookup n l = lookup n l0.
+  Proof.
+    induction 1 as [|a b l l0 [Hk Hv] _ IH]; intros Hm; [reflexivity|].
+    destruct a as [ka va], b as [kb vb]; simpl in *. subst kb.
+    destruct (N.eqb_spec n ka) as [->|Hne]; [rewrite (Hv Hm); reflexivity | apply IH; exact Hm].
+  Qed.
+
   (** the residual is the loss between the data and the prediction at the candidate values *)
   Lemma residual_is_loss_of_prediction k S st u st1 st2 rows pred :
-    apply_phases S u (rf_order (res_facts ff k)) st = (st1, None) ->
-    simulate O k S st1 = (st2, SimRows rows) ->
+    apply_phases ff S u (rf_order (res_facts ff k)) st = (st1, None) ->
+    simulate O ff k S st1 = (st2, SimRows rows) ->
     prediction (rf_select (res_facts ff k)) k S rows = inl (Some pred) ->
     ff_args_unscaled ff = DataFirst -> ff_args_scaled ff = DataFirst ->
     residual_step O ff k S st u =
@@ -476,5 +593,111 @@ Section Proofs.
       intros l. apply (IH l ((x, l) :: seen)). apply Hv.
     - destruct ok; simpl; [|exact I]. destruct (Nat.eqb (length x) (length names)); simpl; [|exact I].
       apply (in_map (fun e => (combine names (fst e), snd e)) seen (x, RVal f)). apply Hv. reflexivity.
+  Qed.
+  (** *** LocalScipyMinimizer: bounds are a function of the parameter NAME *)
+  Fixpoint vleaves_sat (P : list T -> T -> Prop) (s : vstrat (T:=T)) : Prop :=
+    match s with
+    | VDone ok x f => ok = true -> P x f
+    | VAsk x kont => forall l, vleaves_sat P (kont l)
+    end.
+  Lemma lift_leaves_sat names (P : list T -> T -> Prop) : forall (s : vstrat (T:=T)),
+    vleaves_sat P s ->
+    leaves_sat (fun u v => exists x, u = combine names x /\ P x v) (lift_vstrat names s).
+  Proof.
+    induction s as [x kont IH|ok x f]; intros Hv; simpl in *.
+    - destruct (Nat.eqb (length x) (length names)); simpl; [|exact I]. intros l. apply IH, Hv.
+    - destruct ok; simpl; [|exact I]. destruct (Nat.eqb (length x) (length names)); simpl; [|exact I].
+      exists x. split; [reflexivity | apply Hv; reflexivity].
+  Qed.
+
+  Lemma in_combine_aligned (within : T * T -> T -> Prop) bounds : forall names x,
+    Forall2 within (aligned_bounds O ff bounds names) x ->
+    forall n v, In (n, v) (combine names x) -> within (bound_for O ff bounds n) v.
+  Proof.
+    induction names as [|m names IH]; intros x HF n v Hin; simpl in *; [contradiction|].
+    inversion HF as [|b y bl x' Hb HF' E1 E2]; subst. simpl in Hin. destruct Hin as [E|Hin].
+    - inversion E; subst. exact Hb.
+    - eapply IH; eauto.
+  Qed.
+
+  (** every reported parameter lies within ITS OWN bounds (the user's interval for that name, else the
+      default), for every positional optimiser that answers inside the box it was handed *)
+  Lemma scipy_bounds_by_name (within : T * T -> T -> Prop) k S copy caller p0
+        (scipy : list T -> list (T * T) -> vstrat (T:=T)) bounds after m best loss :
+    (forall x0 bl, vleaves_sat (fun x _ => Forall2 within bl x) (scipy x0 bl)) ->
+    fit O ff k S copy caller p0 (local_scipy_minimizer O ff scipy bounds) = (after, FitOk m best loss) ->
+    forall n v, In (n, v) best -> within (bound_for O ff bounds n) v.
+  Proof.
+    intros Hbox Hf n v Hin. unfold fit in Hf.
+    destruct (apply_phases ff (route S caller p0) p0 (wf_pre_copy (wr_facts ff k)) caller) as [c1 [e|]]; [discriminate|].
+    destruct (run_strat (residual_step O ff k (route S caller p0)) (local_scipy_minimizer O ff scipy bounds p0) c1) as [st' r] eqn:Hr.
+    destruct r as [[[x' v']|]|e]; inversion Hf; subst.
+    unfold local_scipy_minimizer in Hr.
+    destruct (ff_scipy_call ff && ff_scipy_pack ff && ff_pack_updates ff); [|simpl in Hr; discriminate].
+    pose proof (run_leaves_sat _ _ _ _ _ _ _
+                  (lift_leaves_sat (keys p0) _ _ (Hbox (map snd p0) (aligned_bounds O ff bounds (keys p0)))) Hr) as [x [-> HF]].
+    eapply in_combine_aligned; eauto.
+  Qed.
+
+  Lemma combine_keys_vals (p0 : list (name * T)) : combine (keys p0) (map snd p0) = p0.
+  Proof. induction p0 as [|[n v] r IH]; simpl; [reflexivity|]. f_equal. exact IH. Qed.
+
+  (** a start that lies within the bounds of ITS OWN names is not moved by the projection into the box *)
+  Lemma clip_start_kept (within : T * T -> T -> Prop) (clip1 : T * T -> T -> T) bounds (p0 : list (name * T)) :
+    (forall b v, within b v -> clip1 b v = v) ->
+    (forall n v, In (n, v) p0 -> within (bound_for O ff bounds n) v) ->
+    clip_box clip1 (aligned_bounds O ff bounds (keys p0)) (map snd p0) = map snd p0.
+  Proof.
+    intros Hc. induction p0 as [|[n v] r IH]; intros Hin; simpl; [reflexivity|].
+    unfold clip_box in *. simpl. f_equal.
+    - apply Hc. apply Hin. left. reflexivity.
+    - apply IH. intros n' v' H. apply Hin. right. exact H.
+  Qed.
+
+  Lemma lift_leaves_le names le b : forall (s : vstrat (T:=T)),
+    vleaves_sat (fun _ f => le f b) s -> leaves_le le b (lift_vstrat names s).
+  Proof.
+    intros s Hv. apply leaves_le_sat. pose proof (lift_leaves_sat names _ s Hv) as H.
+    revert H. generalize (lift_vstrat names s). induction s0 as [u kont IH|[[x v]|]|e]; simpl; auto.
+    intros [x0 [_ H]]. exact H.
+  Qed.
+
+  (** never worse than the start THROUGH LocalScipyMinimizer: a box-constrained optimiser first evaluates the
+      projection of x0 into the box it was handed and answers nothing worse than what it saw there; because
+      the box is aligned with x0 BY NAME, a start within its own bounds is evaluated unmoved *)
+  Lemma scipy_not_worse_than_start (le : T -> T -> Prop) (within : T * T -> T -> Prop) (clip1 : T * T -> T -> T)
+        k S copy caller p0 bounds (vkont : list (T * T) -> rloss (T:=T) -> vstrat (T:=T)) after m best loss :
+    wf_pre_copy (wr_facts ff k) = [] ->
+    (forall b v, within b v -> clip1 b v = v) ->
+    (forall n v, In (n, v) p0 -> within (bound_for O ff bounds n) v) ->
+    (forall bl b, vleaves_sat (fun _ f => le f b) (vkont bl (RVal b))) ->
+    fit O ff k S copy caller p0
+        (local_scipy_minimizer O ff (fun x0 bl => VAsk (clip_box clip1 bl x0) (vkont bl)) bounds) = (after, FitOk m best loss) ->
+    snd (residual_step O ff k (route S caller p0) caller p0) = RInf
+    \/ exists b, snd (residual_step O ff k (route S caller p0) caller p0) = RVal b /\ le loss b.
+  Proof.
+    intros Hpre Hc Hin Hl Hf.
+    set (bl := aligned_bounds O ff bounds (keys p0)) in *.
+    assert (Hm : ff_scipy_call ff && ff_scipy_pack ff && ff_pack_updates ff = true).
+    { destruct (ff_scipy_call ff && ff_scipy_pack ff && ff_pack_updates ff) eqn:E; [reflexivity|].
+      rewrite (fit_unfold _ _ _ _ _ _ Hpre) in Hf. unfold local_scipy_minimizer in Hf. rewrite E in Hf. simpl in Hf. discriminate. }
+    assert (Hmini : local_scipy_minimizer O ff (fun x0 bl => VAsk (clip_box clip1 bl x0) (vkont bl)) bounds p0
+                    = Ask p0 (fun l => lift_vstrat (keys p0) (vkont bl l))).
+    { unfold local_scipy_minimizer. rewrite Hm. fold bl. simpl.
+      unfold bl. rewrite (clip_start_kept within clip1 bounds p0 Hc Hin).
+      unfold keys at 1. rewrite !map_length, Nat.eqb_refl. rewrite combine_keys_vals. reflexivity. }
+    rewrite (fit_ext k S copy caller p0 _ (fun p => Ask p (fun l => lift_vstrat (keys p0) (vkont bl l)))) in Hf by exact Hmini.
+    eapply fit_not_worse_than_start; [exact Hpre | | exact Hf].
+    intros b. apply lift_leaves_le. apply Hl.
+  Qed.
+
+  (** a rejected [update_variables(y0)] (validated batch editor) leaves the model as it was *)
+  Lemma y0_rejected_changes_nothing (S : settings) (u : list (name * T)) (st st' : mstate) e :
+    ff_batch_vars ff = BatchValidated -> apply_phase ff S u UpdY0 st = (st', Some e) -> st' = st.
+  Proof.
+    intros Hm Ha. simpl in Ha. rewrite Hm in Ha. destruct (s_y0 S) as [y0|]; [|discriminate].
+    destruct (batch_update BatchValidated (keys y0) (fun n => lookup n y0) (ms_vars st)) as [v e'] eqn:Hs.
+    inversion Ha; subst. apply batch_validated_all_or_nothing in Hs; [|intros n; apply lookup_keys_some].
+    subst v. destruct st; reflexivity.
   Qed.
 End Proofs.
